@@ -540,4 +540,53 @@ theorem offset_ok (d : Int64) (h : offsetOk d.toInt = true) :
     have hd := decode_neg _ _ he (o2 hpos) o1
     rw [hd, hn]
     omega
+/-! ### the conversions as single floors of the exact rational conversion -/
+
+/-- dividing `q·d + r` scaled by `c`: the quotient splits exactly -/
+theorem scaled_div (u c d : Nat) (hd : 0 < d) : u * c / d = u / d * c + u % d * c / d := by
+  conv => lhs; rw [← Nat.div_add_mod u d]
+  rw [Nat.add_mul, Nat.mul_assoc, Nat.mul_add_div hd]
+
+/-- seconds-and-fraction arithmetic of `toNtpTime` = one floor of the exact rational conversion -/
+theorem ntpFull_floor (u : Nat) : ntpFull u = u * 4294967296 / 1000000000 + 2208988800 * 4294967296 := by
+  unfold ntpFull
+  rw [scaled_div u 4294967296 1000000000 (by decide), Nat.add_mul]
+  omega
+
+theorem mod_mul_add_mod (x c g m : Nat) : (x % m * c + g) % m = (x * c + g) % m := by
+  rw [Nat.add_mod, Nat.mul_mod, Nat.mod_mod, ← Nat.mul_mod, ← Nat.add_mod]
+
+theorem timeNat_floor (t : Nat) :
+    timeNat t = (t * 1000000000 / 4294967296 + 18446744071500562816 * 1000000000) % 18446744073709551616 := by
+  unfold timeNat
+  rw [mod_mul_add_mod, scaled_div t 1000000000 4294967296 (by decide), Nat.add_mul]
+  congr 1
+  omega
+
+/-- nested floors: the 2^-18 s grid value of an instant -/
+theorem grid_floor (u : Nat) : u * 4294967296 / 1000000000 / 16384 = u * 262144 / 1000000000 := by
+  rw [Nat.div_div_eq_div_mul, show u * 4294967296 = u * 262144 * 16384 by omega,
+    Nat.mul_div_mul_right _ _ (by decide)]
+
+theorem toNtp_floor (u : UInt64) :
+    (toNtpTime u).toNat =
+      (u.toNat * 4294967296 / 1000000000 + 2208988800 * 4294967296) % 18446744073709551616 := by
+  rw [toNtpTime_toNat, ntpNat_eq_full_mod, ntpFull_floor]
+
+theorem toTime_floor (t : UInt64) :
+    (toTime t).toNat =
+      (t.toNat * 1000000000 / 4294967296 + 18446744071500562816 * 1000000000) % 18446744073709551616 := by
+  rw [toTime_toNat, timeNat_floor]
+
+theorem six18_lin (x : Nat) :
+    (x + 2208988800 * 4294967296) % 18446744073709551616 / 16384 % 16777216 = x / 16384 % 16777216 := by
+  omega
+
+/-- the 24-bit abs-send-time of an instant is its 6.18 fixed-point number of seconds modulo 64 s -/
+theorem abs_send_time_floor (u : UInt64) :
+    (newAbsSendTime u &&& 0xFFFFFF).toNat = u.toNat * 262144 / 1000000000 % 16777216 := by
+  simp only [newAbsSendTime]
+  rw [UInt64.toNat_and, UInt64.toNat_shiftRight, toNtp_floor, show (0xFFFFFF : UInt64).toNat = 2 ^ 24 - 1 from rfl,
+    Bits.nat_and_mask, show (14 : UInt64).toNat % 64 = 14 from rfl, Nat.shiftRight_eq_div_pow]
+  rw [show (2 : Nat) ^ 14 = 16384 from rfl, show (2 : Nat) ^ 24 = 16777216 from rfl, six18_lin, grid_floor]
 end Rtp.Proofs.Ntp
